@@ -43,7 +43,7 @@ OUTDATED = {
 }
 
 _TAGS_ONLY = re.compile(r"<[/!?a-zA-Z][^>]*>")
-_MIXED_TEXT = re.compile(r"[^\s<>][^<>]*[ \t\n\f\r]|[ \t\n\f\r][^<>]*[^\s<>]")
+_MIXED_TEXT = re.compile(r"[^\s\x01][^\x01]*[ \t\n\f\r]|[ \t\n\f\r][^\x01]*[^\s\x01]")
 _PRE_THEN_TAG_THEN_LF = re.compile(r"<(pre|listing)\b[^>]*>(<[^>]*>|\0)+\r?\n")
 _TAGNAME = re.compile(r"</?([a-zA-Z][^\s/>\0]*)")
 
@@ -56,7 +56,7 @@ def excluded(text, ctx=None):
     low = text.lower()
     if ("svg" in names or "math" in names or (ctx and ctx[0] != namespaces["html"])) and ("</p" in low or "</br" in low):
         hit.append("</p> or </br> in foreign content (break-out rule added to the standard in 2017)")
-    if ("frameset" in names or "colgroup" in names) and _MIXED_TEXT.search(_TAGS_ONLY.sub("<>", text)):
+    if ("frameset" in names or "colgroup" in names) and (_MIXED_TEXT.search(_TAGS_ONLY.sub("\x01", text)) or "&" in text):
         hit.append("frameset/colgroup + a text run mixing whitespace and other characters (html5lib decides per run, the standard per character)")
     if ctx and ctx[1].lower() == "noscript":
         hit.append("html5lib tokenizes a noscript fragment context as RAWTEXT whatever the scripting flag")
